@@ -1,6 +1,7 @@
 """C17 - Console output is append-only and stays within the configured width."""
 from harness.props.session import *
 from harness.gen.sessions import gen_case, SidCounter
+from harness.props.session import run_impl as _s_run_impl, model_case as _s_model_case, compare as _s_compare, strip_obs as _s_strip
 
 THEOREM_NOTE = ("Props/C17.lean: the output stream is only appended to; every character written is a newline, a blank, '=', a character of a framework literal or of an "
                 "application string (so no carriage return, backspace or escape is introduced); every draw is preceded by two lines of exactly the configured width of '=' "
@@ -26,10 +27,46 @@ def generate(rnd, tier):
             s["text"] = rnd.choice(TEXTS)
             s["height"] = rnd.choice([30, 30, 4, 5, 8, 12])
         cases.append(c)
-    return [with_cc(c) for c in cases]
+    cases = [with_cc(c) for c in cases]
+    # list layouts (the pure layer shared with C13): unforced numbered lists of 0..25 items that fill their columns, at every width
+    from harness.props.common import with_cc as pure_cc
+    for _ in range(600 if tier == "quick" else 6000):
+        k = rnd.randint(1, 4); w = rnd.randint(8, 100); n = rnd.choice([3, 9, 10, 11, 12, 20, 25, 100, 101])
+        cw = int((w - (k - 1) * 3) / k)
+        items = [["text", rnd.choice(["x" * max(1, cw - rnd.choice([3, 4, 5])), "word " * rnd.randint(1, 12), "y" * rnd.randint(1, 2 * max(1, cw))])] for _ in range(n)]
+        cases.append(pure_cc({"op": "tree", "tree": ["list", rnd.random() < 0.5, k, None, 3, ["", ") ", rnd.choice([1, 1, 0, 95])], items], "ops": [["render", w]]}))
+    return cases
+
+
+def run_impl(case):
+    if case["op"] == "tree":
+        from harness.impl.render import run_impl as r
+        return r(case)
+    return _s_run_impl(case)
+
+
+def model_case(case):
+    if case["op"] == "tree": return {k: v for k, v in case.items() if not k.startswith("_")}
+    return _s_model_case(case)
+
+
+def compare(case, impl, model):
+    if case["op"] == "tree":
+        return None if impl == model else "implementation %r / model %r" % (impl[0].get("lines", impl)[:3] if isinstance(impl[0], dict) else impl, model[0].get("lines", model)[:3] if isinstance(model[0], dict) else model)
+    return _s_compare(case, impl, model)
+
+
+def strip_obs(obs):
+    return _s_strip(obs) if isinstance(obs, dict) else obs
 
 
 def monitor(case, obs):
+    if case["op"] == "tree":
+        o = obs[0]; w = case["ops"][0][1]
+        if "err" in o: return None
+        for l in o["lines"]:
+            if len(l.rstrip(" ")) > w: return "a list layout line %r is longer than the requested width %d" % (l, w)
+        return None
     out = obs["out"]; W = case.get("width", 80)
     own = "".join(strings_of({k: v for k, v in case.items() if k != "cc"}))
     for ch in out:
@@ -63,4 +100,5 @@ def monitor(case, obs):
 
 
 def nontrivial(case, obs):
+    if case["op"] == "tree": return len(case["tree"][6]) >= 10
     return sum(1 for e in obs["log"] if e[0] == "cb" and e[2] == "show") >= 2
